@@ -15,7 +15,8 @@ func init() {
 // journals in which some needed price is missing (must fail).  A third of the cases (index
 // 2 mod 3) aggregate rows: one or two -m level[,regex] rules and/or --remap regex over the
 // journal's account names (C03_windowed_mapped); the draws come last, so the other cases are
-// those of the generator without mappings.
+// those of the generator without mappings.  Half of the cases with index 1 mod 3 restrict the report with --commodity,
+// 30% of the cases with index 1 or 2 mod 3 with --account.
 func genC03(out *caseWriter, seed uint64, n int, args []string) error {
 	var items []caseIn
 	for i := 0; i < n; i++ {
@@ -71,6 +72,15 @@ func genC03(out *caseWriter, seed uint64, n int, args []string) error {
 			cfg.Com = []string{pick(r, o.commodities)}
 			if r.chance(30) {
 				cfg.Com = append(cfg.Com, pick(r, o.commodities))
+			}
+		}
+		if i%3 != 0 && r.chance(30) {
+			// the report restricted to some accounts (--account together with -v, alone or with --commodity, -m, --remap):
+			// the filter decides what the report's query adds up, not what is valued (C03_model_meets_spec_where_mapped;
+			// a row on which no account that passes lands is empty, C03_filtered_out_row_zero).  Drawn last: the cases
+			// without it are those of the generator before.
+			if accs := journalAccounts(j); len(accs) > 0 {
+				cfg.Acc = []string{rxFor(r, accs)}
 			}
 		}
 		_ = time.Now
